@@ -824,12 +824,12 @@ def selftest():
 
 
 SUBCHECKS = [
-    Subcheck("params", params_cases, check_params, classify_cosmo, quick=1500, thorough=60000),
-    Subcheck("distances", distance_cases, check_distances, classify_dist, quick=1200, thorough=80000),
-    Subcheck("volume", volume_cases, check_volume, classify_dist, quick=500, thorough=30000),
-    Subcheck("lensing", lensing_cases, check_lensing, classify_dist, quick=600, thorough=40000),
-    Subcheck("concordance", concordance_cases, check_concordance, classify_conc, quick=300, thorough=20000),
-    Subcheck("identities", identity_cases, check_identities, classify_dist, quick=1500, thorough=80000),
-    Subcheck("arrays", array_cases, check_arrays, classify_arrays, quick=2500, thorough=150000),
-    Subcheck("copies", copy_cases, check_copies, classify_copies, quick=800, thorough=40000),
+    Subcheck("params", params_cases, check_params, classify_cosmo, quick=2000, thorough=80000),
+    Subcheck("distances", distance_cases, check_distances, classify_dist, quick=2500, thorough=150000),
+    Subcheck("volume", volume_cases, check_volume, classify_dist, quick=1000, thorough=60000),
+    Subcheck("lensing", lensing_cases, check_lensing, classify_dist, quick=1200, thorough=80000),
+    Subcheck("concordance", concordance_cases, check_concordance, classify_conc, quick=600, thorough=40000),
+    Subcheck("identities", identity_cases, check_identities, classify_dist, quick=2500, thorough=150000),
+    Subcheck("arrays", array_cases, check_arrays, classify_arrays, quick=5000, thorough=300000),
+    Subcheck("copies", copy_cases, check_copies, classify_copies, quick=1500, thorough=60000),
 ]
